@@ -123,6 +123,20 @@ TEXT['C01'] = (
     'findings and only the affected clause is withheld.',
     'DESIGN.md 3.1')
 
+TEXT['C06'] = (
+    'Seeded search over histories in which 1-3 clients write the five Chemkin files of one or two generated mechanisms (1-40 '
+    'ChemkinReactions over gas, surface and bulk Nasa species on 1-3 CatSites, adsorption or not, with or without transition '
+    'states, stoichiometry 1-3) in any order, repeatedly, to 1-4 paths of a fault-injecting file system or as text, with every '
+    'activation-method name, unit, float/stoichiometry format, delimiter and newline, under a simulated clock with jumps and '
+    'varying hash seeds, and read gas.inp/surf.inp back with read_reactions. Oracle: an independent section parser (ELEMENTS / '
+    'SPECIES / SITE / BULK / REACTIONS, EA tables, T_flow and tube tables) requires every element, species, site and reaction '
+    'exactly once in the file where it belongs, declared counts equal to the entries that follow, and every printed number equal, '
+    'to the printed precision, to the value obtained from a twin mechanism rebuilt from the same description and called afresh '
+    'with pristine arguments (exposes state carried between reactions or between writes); equations read back to the same species '
+    'and stoichiometry. Disk clauses as C05 (signalled faults, failed open leaves content, full recovery by the next clean write, '
+    'reads never write); thorough tier enumerates every single-fault placement on sampled writes.',
+    'DESIGN.md 3.6')
+
 TECHNIQUE = 'deterministic simulation with fault injection (seeded schedule/history search, reference-model oracle, ddmin replay)'
 
 
